@@ -99,6 +99,33 @@ CLAIMED = {
              design="8/C10", note=NOTE + "Partial: independence from hash iteration order is observed over repeated runs, not proved; the theorem covers the ordering step and, "
                   "through the correspondence, that the model (a function) predicts the implementation's items.",
              technique="Coq proof (stable sort: permutation, sortedness, stability) + repeated-run differential exploration"),
+ "C15": dict(text="Include = textual inclusion: Coq theorems over the model of the file driver prove, for every store, text and fault: parsing is "
+                  "parametric in positions and file identities (C15_parse_one_erase, C15_drive_erase); a failing .include (absent path, IO fault, "
+                  "already imported = self/cyclic/second inclusion) contributes exactly its error located on the directive's path token, no node, and "
+                  "parsing continues as if the line were absent (C15_include_fault, end to end for A ++ line ++ B vs A ++ B up to positions); a "
+                  "succeeding .include is equivalent to pasting the file (C15_run_concat exact at driver level, C15_include_paste end to end, nested "
+                  "includes allowed) provided the included text and the text before the directive end at a statement boundary (executable predicate "
+                  "`closed`; counterexamples proved: a trailing `.word 1` keeps consuming numbers of the next line, an unterminated .macro); every node "
+                  "and error produced from an included text carries that file's id and file-relative positions (C15_include_locations, exact). "
+                  "Parsing any store always returns. Tied to parsing.rs/reader by comparing nodes, errors and diagnostics on include trees with faults; "
+                  "the checker cuts programs into random include trees (in memory and on disk with nested directories through the rva binary) and "
+                  "requires the pasted program's diagnostics at the mapped file/line, and checks --all-files against the other-files counter.",
+             design="8/C15", note=NOTE + "Hypotheses `closed` (statement boundary) and no_cyclic are needed and shown necessary by proved counterexamples. The CLI's path resolution "
+                  "(IOFileReader: relative to the including file, canonicalisation) is exercised on disk, not modelled. Whole-tree flattening follows by iterating the one-level theorem (not stated as one theorem).",
+             technique="Coq proof (driver refinement: include = paste, fault step lemmas, position parametricity) + differential correspondence + cut-and-paste metamorphic exploration"),
+ "C18": dict(text="Output channels: Coq theorems over the model of printer.rs prove: every lint kind, parse error and CFG error has a non-empty title and "
+                  "lint severity is a function of the kind (C18_kind_table); the excerpt is exact - for reported columns on the line after its "
+                  "indentation the marker line has carets exactly under columns start..end, keeps tabs/white space before them, and the shown line is "
+                  "the source line trimmed (C18_excerpt_exact/_source/_outside cover every other case); the items every channel receives are one "
+                  "list sorted by (file name, start, end) and the base-file filter keeps that order and counts the hidden items (C18_visible_sorted, "
+                  "C18_display_pretty); the compact line, the pretty header and the JSON record are functions of the same fields and the compact "
+                  "output can be decoded back to them (C18_channels_agree, C18_compact_decode, C18_compact_output). Tied to printer.rs by rendering "
+                  "the items returned by the library entry point RVParser::run with the extracted printer model and comparing byte for byte with "
+                  "the rva binary's pretty and compact output (with/without --all-files); the checker parses JSON, compact and pretty output back and "
+                  "compares them with each other and with the library items, order included, and checks JSON shape and excerpt/carets against the file.",
+             design="8/C18", note=NOTE + "Colours are not modelled (none are emitted when stdout is not a terminal); JSON text layout is serde_json's (trusted), compared as parsed data. "
+                  "Reader-fault messages differ between the in-memory reader and the CLI reader by design and are normalised in the comparison.",
+             technique="Coq proof (printer model: excerpt geometry, order preservation, decodability) + byte-exact differential correspondence + cross-channel exploration"),
  "C01": dict(text="Value analysis soundness: Coq theorem C01_claims_hold_on_executions proves, over an RV32IM machine written from the ISA (arithmetic = the "
                   "FoldSpec of C08, byte-addressed little-endian memory, calls summarised by the calling convention, ecalls by the RARS table), that for ANY "
                   "graph whose facts satisfy the analysis equations and any execution of any length from an entry node inside the supported subset, every "
